@@ -17,6 +17,7 @@ import (
 	"encoding/hex"
 	"math/rand"
 	"sort"
+	"strconv"
 	"strings"
 
 	"golang.org/x/crypto/argon2"
@@ -347,6 +348,155 @@ func WrongKeys(r *rand.Rand, pass string) []string {
 	}
 
 	return out
+}
+
+// ---------------------------------------------------------------- key sweeps
+
+// KeyLens are the passphrase lengths of the key sweep: around the AES block and key sizes
+// (16, 32), the SHA-256 / HMAC block (64), bcrypt's 72, the server's generated token keys
+// (128 characters, tokens.randomKey), and long ones.
+var KeyLens = []int{0, 1, 15, 16, 17, 31, 32, 33, 63, 64, 65, 100, 128, 255, 256, 1000}
+
+// TokenKeyAlphabet is the alphabet of the server's generated token keys.
+const TokenKeyAlphabet = "ABCDEFGHIJKLMNOPQRSTUVWXYZabcdefghijklmnopqrstuvwxyz0123456789"
+
+// KeyOfLen returns a passphrase of exactly n bytes. style 0: characters of the generated
+// token keys; style 1: arbitrary bytes (the last one is never NUL, so that the key is not a
+// NUL-padded form of a shorter one).
+func KeyOfLen(r *rand.Rand, n, style int) string {
+	b := make([]byte, n)
+
+	for i := range b {
+		if style == 0 {
+			b[i] = TokenKeyAlphabet[r.Intn(len(TokenKeyAlphabet))]
+		} else {
+			b[i] = byte(r.Intn(256))
+		}
+	}
+
+	if style != 0 && n > 0 && b[n-1] == 0 {
+		b[n-1] = 0x5A
+	}
+
+	return string(b)
+}
+
+// KeyVar is a passphrase DIFFERENT from the honest one, with the way it differs.
+type KeyVar struct {
+	Kind string
+	Key  string
+}
+
+func swapCase(k string, from int) string {
+	b := []byte(k)
+
+	for i := from; i < len(b); i++ {
+		if c := b[i] | 0x20; c >= 'a' && c <= 'z' {
+			b[i] ^= 0x20
+		}
+	}
+
+	return string(b)
+}
+
+// keyBoundaries are byte positions around the sizes a passphrase could plausibly be cut,
+// padded or blocked at.
+var keyBoundaries = []int{0, 1, 15, 16, 17, 31, 32, 33, 55, 56, 63, 64, 65, 71, 72, 73, 99, 100, 127, 128, 129, 254, 255, 256, 257, 511, 512, 513}
+
+// KeyVariants returns passphrases that differ from k in exactly one controlled way; every
+// one of them is a WRONG key for a ciphertext made under k.  level selects how many:
+//
+//	0  one changed bit in the LAST byte; one appended character
+//	1  + one changed bit at byte 64 (the first byte beyond the hash block); an appended NUL;
+//	     the case of every letter swapped
+//	2  + one changed bit at each boundary position (keyBoundaries, the middle, the last two,
+//	     two random positions); suffixes (space, newline, NUL NUL, 64 bytes, k again); a
+//	     prepended space; every prefix of a boundary length and of length-1; case swapped only
+//	     beyond a boundary; for keys longer than 64 bytes their SHA-256 (what HMAC replaces them by)
+//	3  + one changed bit at EVERY byte position (every 7th beyond 256)
+func KeyVariants(r *rand.Rand, k string, level int) []KeyVar {
+	var res []KeyVar
+
+	seen := map[string]bool{k: true}
+	add := func(kind, key string) {
+		if !seen[key] {
+			seen[key] = true
+			res = append(res, KeyVar{kind, key})
+		}
+	}
+
+	n := len(k)
+	flip := func(p int) {
+		if p >= 0 && p < n {
+			b := []byte(k)
+			b[p] ^= 1 << uint(r.Intn(8))
+			add("bit@"+itoa(p)+"/"+itoa(n), string(b))
+		}
+	}
+
+	flip(n - 1)
+	add("suffix-char", k+"a")
+
+	if level >= 1 {
+		flip(64)
+		add("suffix-nul", k+"\x00")
+		add("case-all", swapCase(k, 0))
+	}
+
+	if level >= 2 {
+		for _, p := range keyBoundaries {
+			flip(p)
+		}
+
+		flip(n / 2)
+		flip(n - 2)
+
+		if n > 0 {
+			flip(r.Intn(n))
+			flip(r.Intn(n))
+		}
+
+		add("suffix-space", k+" ")
+		add("suffix-newline", k+"\n")
+		add("suffix-nulnul", k+"\x00\x00")
+		add("suffix-64", k+KeyOfLen(r, 64, 0))
+		add("suffix-self", k+k)
+		add("prefix-space", " "+k)
+
+		for _, p := range append([]int{n - 1}, keyBoundaries...) {
+			if p >= 0 && p < n {
+				add("cut@"+itoa(p)+"/"+itoa(n), k[:p])
+				add("case-from@"+itoa(p)+"/"+itoa(n), swapCase(k, p))
+			}
+		}
+
+		if n > 64 {
+			h := sha256.Sum256([]byte(k))
+			add("sha256-of-key", string(h[:]))
+		}
+	}
+
+	if level >= 3 {
+		for p := 0; p < n; p++ {
+			if p < 256 || p%7 == 0 {
+				flip(p)
+			}
+		}
+	}
+
+	return res
+}
+
+func itoa(i int) string { return strconv.Itoa(i) }
+
+// StatKind is the counter name of a line kind: the "@position/length" detail of a key
+// variant stays in the line's description and in a failure's input, not in the counters.
+func StatKind(kind string) string {
+	if i := strings.IndexByte(kind, '@'); i >= 0 {
+		return kind[:i]
+	}
+
+	return kind
 }
 
 // Mut is one forged candidate derived from an honest ciphertext.
